@@ -477,6 +477,49 @@ func scCross(kind string) func(x *vs.Exec) {
 	}
 }
 
+// idle: a connection that carries a message, stays silent for 75 s — longer than every set-up deadline on the path
+// (vhost first-bytes timeout 30 s, visitor hand-shake 10 s, user-connection timeout 5 s) — and then carries another
+// message in both directions: "while both endpoints stay open every written byte is eventually delivered".
+func scIdle(kind string, enc, comp bool) func(x *vs.Exec) {
+	return func(x *vs.Exec) {
+		defer sw.Guard()
+		c := tcase{kind: kind, enc: enc, comp: comp, lim: "none", dir: "both"}
+		w, open, ok := setup(x, c, 1)
+		if !ok {
+			return
+		}
+		u, prefix, e := open("10.4.1.1:5001", 0)
+		if e != "" {
+			vs.Fail("idle/%s: cannot open a user connection: %s", kind, e)
+			return
+		}
+		exchange := func(tag string, skip int) bool {
+			m := []byte("<<message " + tag + " " + strings.Repeat("x", 700) + ">>")
+			if _, err := u.Write(m); err != nil {
+				vs.Fail("idle/%s: user write (%s) failed: %v", kind, tag, err)
+				return false
+			}
+			buf := make([]byte, skip+len(m))
+			if _, idle, err := u.ReadFullOrIdle(buf); idle || err != nil {
+				vs.Fail("idle/%s enc=%v comp=%v: message %s was not echoed back to the user (idle=%v err=%v)", kind, enc, comp, tag, idle, err)
+				return false
+			}
+			if !bytes.Equal(buf[skip:], m) {
+				vs.Fail("idle/%s: echo of message %s altered", kind, tag)
+				return false
+			}
+			return true
+		}
+		if exchange("before the pause", len(prefix)) {
+			vs.BlockFor("pause", 75*time.Second, func() bool { return false })
+			exchange("after 75 s of silence", 0)
+		}
+		u.Close()
+		w.Quiesce()
+		w.StopAll()
+	}
+}
+
 func clipS(b []byte) string {
 	if len(b) > 80 {
 		b = b[len(b)-80:]
@@ -546,6 +589,8 @@ func scenarios() {
 			s.Body = scTunnel(parseCase(f))
 		case "cross":
 			s.Body = scCross(f[1])
+		case "idle":
+			s.Body = scIdle(f[1], f[2][0] == '1', f[2][1] == '1')
 		case "split":
 			var p int
 			fmt.Sscanf(f[2], "%d", &p)
@@ -562,7 +607,7 @@ func main() {
 	if c == nil {
 		return
 	}
-	c.Rule("E1: real frps + real frpc (+ a real frpc as stcp visitor) on the virtual network and clock. Complete product of proxy kind {tcp, stcp via visitor, tcpmux CONNECT, https SNI} x encryption x compression x bandwidth limit {none, client, server} x PROXY protocol {-, v1, v2} x payload size x content x write chunking x direction x close order (quick: a fully enumerated sub-lattice, thorough: the full lattice), first bytes split at every position, 2 proxies x 2 simultaneous connections under deviation-bounded DFS; non-trivial = distinct end state / observation trace")
+	c.Rule("E1: real frps + real frpc (+ a real frpc as stcp visitor) on the virtual network and clock. Complete product of proxy kind {tcp, stcp via visitor, tcpmux CONNECT, https SNI} x encryption x compression x bandwidth limit {none, client, server} x PROXY protocol {-, v1, v2} x payload size x content x write chunking x direction x close order (quick: a fully enumerated sub-lattice, thorough: the full lattice), first bytes split at every position, a connection used again after 75 s of silence (kind x encryption x compression), 2 proxies x 2 simultaneous connections under deviation-bounded DFS; non-trivial = distinct end state / observation trace")
 	c.Assume("transport dimension kcp/quic/websocket/yamux/TLS is exercised with real sockets in C05/C02 parts, not here")
 	pool := vs.GetPool(c.Workers)
 	var names []string
@@ -611,6 +656,11 @@ func main() {
 			for _, ct := range []string{"inc", "zero"} {
 				names = append(names, tcase{"tcp", e&1 == 1, e&2 == 2, "client", "", 16385, ct, "whole", "both", "user"}.name())
 			}
+		}
+	}
+	for _, k := range kinds {
+		for _, ec := range []string{"00", "10", "01", "11"} {
+			names = append(names, "idle/"+k+"/"+ec)
 		}
 	}
 	maxSplit := drv.Pick(c, 40, 600)
